@@ -267,7 +267,17 @@ fn main() {
     }
     // ordered clauses with n_times(0..2), next to an unordered pattern
     let ord_alphabet = vec![Call::new(M::A, 0), Call::new(M::C, 0), Call::new(M::E, 0)];
-    for n1 in 0..=2usize {
+    // (the first ordered clause: a single exact count, the implicit once, or a chain whose
+    // unquantified tail stands for exactly one more call)
+    let mut ord_forms: Vec<(String, Vec<Seg>)> = (0..=2usize).map(|n| (n.to_string(), vec![seg(Resp::Ret(500), Quant::N(n))])).collect();
+    ord_forms.push(("open".into(), vec![seg(Resp::Ret(500), Quant::Open)]));
+    ord_forms.push(("1-then-open".into(), vec![seg(Resp::Ret(500), Quant::N(1)), seg(Resp::Ret(501), Quant::Open)]));
+    if !quick {
+        ord_forms.push(("once-then-open".into(), vec![seg(Resp::Ret(500), Quant::Once), seg(Resp::Ret(501), Quant::Open)]));
+        ord_forms.push(("2-then-1".into(), vec![seg(Resp::Ret(500), Quant::N(2)), seg(Resp::Ret(501), Quant::N(1))]));
+        ord_forms.push(("0-then-open".into(), vec![seg(Resp::Ret(500), Quant::N(0)), seg(Resp::Ret(501), Quant::Open)]));
+    }
+    for (n1, segs1) in ord_forms {
         for n2 in [None, Some(0usize), Some(1), Some(2)] {
             for (l, c) in pattern_specs(false, 0).into_iter().filter(|(_, c)| c.method() == M::A) {
                 let mut clauses = vec![ClauseSpec::Single {
@@ -275,7 +285,7 @@ fn main() {
                     entry: Entry::NextCall,
                     pat: PatSpec {
                         mask: 7,
-                        segs: vec![seg(Resp::Ret(500), Quant::N(n1))],
+                        segs: segs1.clone(),
                     },
                 }];
                 clauses.push(c);
@@ -316,7 +326,7 @@ fn main() {
         J::obj()
             .set("patterns_max", if quick { 2 } else { 3 })
             .set("history_depth", depth)
-            .set("quantifier_forms", "open, some_call, exact 0..2, at-least 0..2, exact n then open, exact n then exact m, exact n then at-least m, ordered n_times(0..2)")
+            .set("quantifier_forms", "open, some_call, exact 0..2, at-least 0..2, exact n then open, exact n then exact m, exact n then at-least m, ordered n_times(0..2), ordered implicit once, ordered chains with an unquantified tail")
             .set("verification_ways", "drop for every history; verify() and Termination::report() once per distinct final model state"),
     );
     cov.put("distinct_final_states_verified_three_ways", SEEN.lock().unwrap().len());
